@@ -450,3 +450,36 @@ def main(tier):
     )
     ctx.cov["exhaustive"] = True
     return ctx.finish()
+
+
+def replay(path):
+    """./check C16 --replay <file>: re-execute a recorded witness on the current tree;
+    exit 1 = still failing, 0 = no longer failing"""
+    import json
+    tree.activate()
+    from harness.impl_h3parser import H3Impl, ClosePath
+    d = json.load(open(path))
+    if d.get("kind") != "impl-witness":
+        n = g.replay_broken(H3Impl, d.get("broken", []))
+        print("still failing" if n else "no longer failing")
+        return 1 if n else 0
+    rp = d["replay"]
+    problem = None
+    if "close" in rp:
+        c = rp["close"]
+        code, reason = (c["error_code"], c["reason_phrase"]) if isinstance(c, dict) else c
+        exc, out = ClosePath().close_with(rp.get("endpoint", "server"), code, reason,
+                                          early=rp.get("before_handshake_confirmed", False))
+        if exc is not None:
+            problem = f"{type(exc[0]).__name__} escapes datagrams_to_send (raised in {exc[1]})"
+        elif not out:
+            problem = "no closing datagram produced"
+    else:
+        outs, mlines, impl, done = g.run_case(H3Impl, [g.strip_answers(o) for o in rp["ops"]])
+        if outs and outs[-1].startswith("err ") and impl.last_exc is not None:
+            e, fn = impl.last_exc
+            problem = f"{type(e).__name__} escapes handle_event (raised in {fn}) at op {len(done) - 1}: {e!s:.120}"
+    if problem:
+        print("VIOLATION-DETAIL", problem)
+    print("still failing" if problem else "no longer failing")
+    return 1 if problem else 0
